@@ -104,4 +104,18 @@ example : ((run (sys envEx) St.init histEx).w.sheets.map fun s => ((s.colAt 3).w
 example : (specRun (sys envEx) (fun w => w) St.init ⟨Book.init, [], []⟩ histEx).cursor = 3 := by
   decide
 
+/-- a second history with the sheet-list operations (identity as case folding so that the kernel
+    can evaluate the name comparisons) -/
+def envId : Env :=
+  { validTz := fun s => s == "UTC", validLocale := fun s => s == "en", upper := fun s => s }
+
+def histSheets : List (Cmd User.Op) :=
+  [.op .newSheet, .op (.renameSheet 1 "Data"), .op (.deleteSheet 0), .undo, .undo, .redo,
+   .op (.setSheetColor 1 "#FF0000"), .undo, .undo, .undo]
+
+example : allDomB envId St.init histSheets = true := by decide
+example : ((run (sys envId) St.init histSheets).w.sheets.map fun s => (s.name, s.id))
+    = [("Sheet1", 1)] := by decide
+example : (run (sys envId) St.init histSheets).redo.length = 3 := by decide
+
 end IronCalc.User.C02
